@@ -45,7 +45,7 @@ def scenarios(tier):
                 for d in (0, 0.25 * h, 0.5 * h, h, 1.5 * h, 2 * h - 2.2):
                     if 0 <= d <= 2 * h - 2.1 or d == 0:
                         out.append((h, role, ph, "answer", round(d, 3)))
-                for k in ("plus1", "zero", "alpha", "empty", "old"):
+                for k in ("plus1", "zero", "alpha", "empty", "old", "plus-sign", "leading-zero", "trailing-space", "underscore"):
                     out.append((h, role, ph, "wrong-id", k))
                 out.append((h, role, ph, "noid-then-answer", 0))
                 out.append((h, role, ph, "answer-twice", 0))
@@ -371,7 +371,9 @@ async def scenario(acc, clock, sc, cid, rnd=None):
                 if fired:
                     return
                 fired["t"] = clock.now
-                bad = {"plus1": str(int(tid) + 1) if tid.isdigit() else tid + "1", "zero": "0", "alpha": "abc", "empty": "", "old": str(int(tid) - 100) if tid.isdigit() else "1"}[par]
+                bad = {"plus1": str(int(tid) + 1) if tid.isdigit() else tid + "1", "zero": "0", "alpha": "abc", "empty": "", "old": str(int(tid) - 100) if tid.isdigit() else "1",
+                       # strings that int() reads as the same number are still other strings: not the TestReqID that was sent
+                       "plus-sign": "+" + tid, "leading-zero": "0" + tid, "trailing-space": tid + " ", "underscore": tid[:1] + "_" + tid[1:]}[par]
                 s.later(0.3, lambda: (not s.disconnected()) and s.feed("0", [(112, bad)]))
             s.answer = ans
             await run_until(s, h + 3)
@@ -521,7 +523,7 @@ def random_scenario(rnd):
         hi = 2 * h - 2.1
         return (h, role, ph, "answer", round(rnd.uniform(0, hi), 3) if hi > 0 else 0)
     if k < 0.85:
-        return (h, role, ph, "wrong-id", rnd.choice(["plus1", "zero", "alpha", "empty", "old"]))
+        return (h, role, ph, "wrong-id", rnd.choice(["plus1", "zero", "alpha", "empty", "old", "plus-sign", "leading-zero", "trailing-space", "underscore"]))
     if k < 0.93:
         return (h, role, ph, "app-test-req", 0)
     return (h, role, ph, rnd.choice(["answer-twice", "noid-then-answer", "hb-every-h+answer", "inbound-testreq"]), 0)
